@@ -5,7 +5,9 @@ namespace bkr {
 
 static ref::Props ack_props_of(const Config& c, const char* what) {
     if (!c.ack_props) return {};
-    return {ref::pstr(0x1F, std::string("reason-") + what), ref::ppair("ak", what)};
+    static thread_local int seq = 0; static thread_local const Config* last = nullptr; if (last != &c) { last = &c; seq = 0; }
+    ++seq;   // every acknowledgement is distinguishable, so a handler fed from a stale one is noticed
+    return {ref::pstr(0x1F, std::string("reason-") + what + "-" + std::to_string(seq)), ref::ppair("ak", what)};
 }
 
 void Broker::on_open(int conn) { if (int(cs.size()) <= conn) cs.resize(conn + 1); }
@@ -35,6 +37,7 @@ void Broker::emit_raw(int conn, const std::string& bytes, bool hostile) {
         auto r = ref::decode((const unsigned char*)bytes.data() + off, bytes.size() - off);
         if (r.st == ref::D_OK) { e.pkt = r.pkt; e.raw = bytes.substr(off, r.consumed); off += r.consumed; }
         else { e.malformed = true; e.raw_hostile = hostile; e.why = r.why; e.raw = bytes.substr(off); off = bytes.size(); }
+        c.emitted += e.raw.size(); e.b2c_end = c.emitted;
         // completion of client->broker exchanges (Receive Maximum accounting happens when the ack is really sent)
         if (!e.malformed) {
             if (e.pkt.type == ref::PUBACK || e.pkt.type == ref::PUBCOMP) c.inflight.erase(e.pkt.pid);
@@ -140,7 +143,7 @@ void Broker::handle(int conn, const ref::Packet& p, const std::string& raw) {
             emit_raw(conn, cfg.hostile.raw, true); if (!cfg.hostile.also_normal_reply) return; }
         int v = next_hs_variant; next_hs_variant = HS_OK;
         uint8_t scripted_rc = connects_seen - 1 < int(cfg.connack_rc_script.size()) ? cfg.connack_rc_script[connects_seen - 1] : 0;
-        if (v == HS_RC || scripted_rc) { ref::Packet ca; ca.type = ref::CONNACK; ca.rc = scripted_rc ? scripted_rc : 0x88; ca.has_rc = true; emit(conn, ca); close_conn(conn); return; }
+        if (v == HS_RC || scripted_rc) { ref::Packet ca; ca.type = ref::CONNACK; ca.rc = scripted_rc ? scripted_rc : 0x88; ca.has_rc = true; ca.props = cfg.connack_props; emit(conn, ca); close_conn(conn); return; }
         if (v == HS_MALFORMED) { emit_raw(conn, std::string("\x20\x03\x00\xFF\x00", 5), true); return; }
         if (v == HS_SILENT) { c.behaviour = B_NOREPLY; return; }
         if (v == HS_CLOSE) { close_conn(conn); return; }
